@@ -708,6 +708,16 @@ def gen_plan_world(rng, numeric=True, n_actions=None, forall=True, when=True, ma
             lf = gen_leaf(rng, w, params, numeric=numeric and numeric_actions and rng.random() < 0.5, equality=True)
             if lf:
                 pre.append(lf)
+        if forall and rng.random() < 0.3:
+            # a quantified precondition (ranges over the type and its subtypes) ...
+            q = gen_forall(rng, w, params, depth=0, numeric=False)
+            if q:
+                pre.append(q)
+        if rng.random() < 0.2:
+            # ... or a disjunction of two leaves
+            d = ["or"] + [x for x in (gen_leaf(rng, w, params, numeric=False, equality=True) for _ in range(2)) if x]
+            if len(d) == 3:
+                pre.append(d)
         eff = gen_effect(rng, w, params, when=when, forall=forall, numeric=numeric and numeric_actions, n=rng.randint(1, 3), use_constants=0.1)
         if len(eff) > 1 and statically_consistent(eff):
             acts.append({"name": f"act{len(acts)}", "params": params, "pre": pre, "eff": eff})
